@@ -258,6 +258,8 @@ func runC12(w *World, r *Report) {
 	c12PositionRecorded(w, r)
 	c12Gate(w, r)
 	c12DiagnosticSink(w, r)
+	diagnosticAtTheElement(w, r, "C12")
+	visitorKeepsNoPacketState(w, r, "C12")
 	c12Namespaces(w, r)
 	c12Live(w, r)
 	c12Resolution(w, r)
